@@ -168,7 +168,7 @@ PROPS = {
     },
     "C05": {
         "id": "C05",
-        "lean_modules": ["HaqqModel.Props.C05", "HaqqModel.Props.C05Storage"],
+        "lean_modules": ["HaqqModel.Props.C05", "HaqqModel.Props.C05Storage", "HaqqModel.Props.Script"],
         "level": "proof",
         "trusted_base": COMMON_TRUST + [
             "modelled, not verified: go-ethereum's interpreter (that every frame takes a Snapshot on entry and calls RevertToSnapshot on failure, and that all EVM-side writes go through the StateDB methods modelled here) — exercised by the real transactions of the correspondence run, not proved; the Cosmos-side effects of precompile calls are outside the journal model and are covered by the transaction-level monitors only; contract code changes are journalled like nonce changes and are not modelled separately",
@@ -184,7 +184,7 @@ PROPS = {
     },
     "C02": {
         "id": "C02",
-        "lean_modules": ["HaqqModel.Props.C02"],
+        "lean_modules": ["HaqqModel.Props.C02", "HaqqModel.Props.Script"],
         "level": "proof",
         "trusted_base": COMMON_TRUST + [
             "modelled, not verified: the bank keeper's mint/burn in EVMKeeper.SetBalance (as supply ± difference), SendCoins between an account and an outside pool (supply-neutral), the auth account store; the Cosmos message a precompile runs is modelled as an arbitrary list of supply-neutral credits and debits of arbitrary accounts",
